@@ -147,7 +147,8 @@ def _moslem_chunk(job):
         v = eval_exact(tg, {Y: Fraction(y), MO: Fraction(m), DD: Fraction(d), "$memo": {}}, prims)
         return tuple(int(x) for x in v) if (isinstance(v, tuple) and len(v) == 3 and all(Fraction(x).denominator == 1 for x in v)) else v
     for h in range(h0, h1):
-        dates = [(h, m, d) for m in range(1, 13) for d in range(1, 31)] if full else [(h, 1, 1), (h, 1, 2), (h, 12, 29)]
+        # quick tier: the year boundaries of every year, and every day of the Moslem years that overlap the civil change-over (1582-1583)
+        dates = [(h, m, d) for m in range(1, 13) for d in range(1, 31)] if (full or h in DENSE_AH) else [(h, 1, 1), (h, 1, 2), (h, 12, 29)]
         for (hh, m, d) in dates:
             if d == 30 and _islamic_jdn(hh, m, 30) == _islamic_jdn(*((hh, m + 1, 1) if m < 12 else (hh + 1, 1, 1))):
                 continue                     # the month has 29 days in the arithmetic calendar
@@ -174,6 +175,7 @@ def _moslem_chunk(job):
     return n, probs
 
 
+DENSE_AH = (989, 990, 991)          # AH 989-991 = civil 1581-02 .. 1584-01: both sides of 4/15 October 1582
 LAST_AH = 2500          # the property's domain: Moslem years 1..2500 (civil 622-07-16 .. 3047)
 
 
@@ -208,7 +210,7 @@ def moslem_cycle(repo, rep, tier):
                       construct="AH %s" % key, obligation=True)
     if not probs:
         rep.ok("R-CYCLE", site, "%d Moslem dates executed exactly: existing civil date, agreement with the arithmetic calendar, round trip%s"
-               % (n, " (every day of AH 1..2500)" if full else " (first two days and 29 Dhu al-Hijja of every year AH 1..2500)"), obligation=True)
+               % (n, " (every day of AH 1..2500)" if full else " (first two days and 29 Dhu al-Hijja of every year AH 1..2500, every day of AH 989-991)"), obligation=True)
         rep.floor("Moslem dates executed through both conversions", n, 7000)
 
 
@@ -310,7 +312,7 @@ def feast_cycle(repo, rep, tier):
         try:
             outs, _ = symx.eval_function(repo, MOD, q, arg_terms={fn.args.args[0].arg: YR}, unroll=4)
             t = symx.return_term(outs)
-        except (AnalysisError, symx.Unsupported) as e:
+        except AnalysisError as e:
             rep.inconcl(rule, site, "recipe not extractable: %s" % e)
             status[rule] = "inconclusive"
             continue
@@ -420,6 +422,8 @@ def daycount(repo, rep):
 
     dates = [(y, m, d, False) for y in range(1583, 1583 + 800) for m in range(1, 13) for d in ((1, 28) if y < 1587 else (1,))]
     dates += [(y, m, d, True) for y in list(range(1000, 1004)) + [1580, 1581] for m in range(1, 13) for d in (1, 28)]
+    # the change-over year day by day (Julian to 4 October, Gregorian from 15 October)
+    dates += [(1582, m, d, (m, d) < (10, 5)) for m in range(1, 13) for d in range(1, calendar.mdays[m] + 1) if not (m == 10 and 5 <= d <= 14)]
     offs = {}
     n = 0
     for y, m, d, jul in dates:
